@@ -31,6 +31,10 @@ def _hk(x):
     return c
 
 
+def same_set(a, b):
+    return len(a) == len(b) and all(any(eq(x, y) for y in b) for x in a) and all(any(eq(x, y) for y in a) for x in b)
+
+
 def _frame(cols, labels, index, consolidate, name=None):
     blocks = gen.layout_consolidated(cols) if consolidate else gen.layout_split(cols)
     return sf.Frame(sf.TypeBlocks.from_blocks([gen.freeze(b) for b in blocks], shape_reference=(len(index), len(cols))), index=index, columns=labels, name=name, own_data=True)
@@ -42,7 +46,7 @@ def _frame(cols, labels, index, consolidate, name=None):
 @st.composite
 def label_cases(draw):
     # decisive choices first (late draws are pinned to their first option for a share of Hypothesis's examples)
-    what = draw(st.sampled_from(['set_unset', 'set_hier', 'shift_in_out', 'shift_out_in', 'set_keep', 'shift_out_list']))
+    what = draw(st.sampled_from(['set_unset', 'set_hier', 'shift_in_out', 'shift_out_in', 'set_keep', 'shift_out_list', 'set_shift_round']))
     perm = draw(st.permutations([0, 1, 2]))[: draw(st.sampled_from([2, 3, 1]))]
     consolidate, axis = draw(st.booleans()), draw(st.integers(0, 1))
     m = draw(st.sampled_from([3, 2, 4]))
@@ -132,6 +136,34 @@ def check_labels(case):
             if not all(eq(a, b) for a, b in zip(got[_hk(key)], w)):
                 raise Failure('value', 'set_index_hierarchy moved cells: key %r row %s expected %s' % (key, got[_hk(key)], w))
         return {'nt': n >= 2, 'cls': ['labels:set_hier']}
+    if what == 'set_shift_round':
+        # one column becomes the index (its label becomes the index name), a second one is shifted in next to it, then both
+        # depths are shifted out again: the two columns come back under their own labels (labels here are 0, 1, ... or
+        # '', 'c1', ...: a label that is falsy is a label like any other)
+        if k0 == k1 or m < 3:
+            raise Discard('needs two key columns and a data column')
+        lab2 = list(range(m)) if case['consolidate'] else [''] + ['c%d' % j for j in range(1, m)]
+        f2 = f.relabel(columns=lab2)
+        if len({_hk(r_[k0]) for r_ in rows}) != n:
+            raise Discard('key column not unique')
+        r = lib(lambda: f2.set_index(lab2[k0], drop=True).relabel_shift_in(lab2[k1], axis=0))
+        if isinstance(r, Raised):
+            raise Failure('raised:%s' % r.cls, 'set_index(%r).relabel_shift_in(%r) raised %r' % (lab2[k0], lab2[k1], r.exc), r.where)
+        nm = r.index.name
+        if not (isinstance(nm, tuple) and len(nm) == 2 and eq(canon(nm[0]), canon(lab2[k0])) and eq(canon(nm[1]), canon(lab2[k1]))):
+            raise Failure('name', 'set_index(%r).relabel_shift_in(%r): index name %r expected %r' % (lab2[k0], lab2[k1], nm, (lab2[k0], lab2[k1])))
+        back = lib(lambda: r.relabel_shift_out([0, 1], axis=0))
+        if isinstance(back, Raised):
+            raise Failure('raised:%s' % back.cls, 'relabel_shift_out([0, 1]) raised %r' % back.exc, back.where)
+        bl = [canon(x) for x in back.columns]
+        if not same_set(bl, [canon(x) for x in lab2]):
+            raise Failure('labels', 'set_index / shift_in / shift_out round trip: columns %s expected (as a set) %s' % (short(bl), short(lab2)))
+        bc = obs.frame_cols(back)
+        for j, lab in enumerate(lab2):
+            g = arr_list(bc[[q for q, x in enumerate(bl) if eq(x, canon(lab))][0]])
+            if not all(eq(a, b) for a, b in zip(g, [r_[j] for r_ in rows])):
+                raise Failure('value', 'round trip: column %r holds %s expected %s' % (lab, short(g), short([r_[j] for r_ in rows])))
+        return {'nt': n >= 2, 'cls': ['labels:set_shift_round', 'falsy-key' if not lab2[k0] else 'truthy-key']}
     # relabel_shift_in / relabel_shift_out
     if what == 'shift_in_out':
         r = lib(lambda: f.relabel_shift_in(labels[k0], axis=0))
